@@ -79,6 +79,61 @@ def ofJac (j : Jac F) : Pt F :=
     let zi2 := zi * zi
     aff (j.x * zi2) (j.y * (zi2 * zi))
 
+/-! A faster evaluation of `smul` for the judge: the same double-and-add, carried out in Jacobian
+coordinates (textbook formulas for a = 0, with the exceptional cases decided on the affine images)
+and normalised once at the end.  `smul` above remains the definition. -/
+
+def toJac : Pt F → Jac F
+  | inf => ⟨1, 1, 0⟩
+  | aff x y => ⟨x, y, 1⟩
+
+/-- doubling for y² = x³ + b (a = 0): standard Jacobian formulas. -/
+def jdbl (p : Jac F) : Jac F :=
+  if p.z = 0 then p else
+  if p.y = 0 then ⟨1, 1, 0⟩ else
+  let yy := p.y * p.y
+  let s := (p.x * yy + p.x * yy) + (p.x * yy + p.x * yy)        -- 4XY²
+  let m := (p.x * p.x + p.x * p.x) + p.x * p.x                  -- 3X²
+  let x3 := m * m - (s + s)
+  let yyyy := yy * yy
+  let y3 := m * (s - x3) - (((yyyy + yyyy) + (yyyy + yyyy)) + ((yyyy + yyyy) + (yyyy + yyyy)))   -- 8Y⁴
+  let z3 := (p.y * p.z) + (p.y * p.z)
+  ⟨x3, y3, z3⟩
+
+/-- general Jacobian addition with the exceptional cases made explicit. -/
+def jadd (p q : Jac F) : Jac F :=
+  if p.z = 0 then q else
+  if q.z = 0 then p else
+  let z1z1 := p.z * p.z
+  let z2z2 := q.z * q.z
+  let u1 := p.x * z2z2
+  let u2 := q.x * z1z1
+  let s1 := p.y * q.z * z2z2
+  let s2 := q.y * p.z * z1z1
+  if u1 = u2 then
+    if s1 = s2 then jdbl p else ⟨1, 1, 0⟩
+  else
+    let h := u2 - u1
+    let rr := s2 - s1
+    let hh := h * h
+    let hhh := h * hh
+    let v := u1 * hh
+    let x3 := rr * rr - hhh - (v + v)
+    let y3 := rr * (v - x3) - s1 * hhh
+    let z3 := p.z * q.z * h
+    ⟨x3, y3, z3⟩
+
+def jsmul (k : Nat) (p : Jac F) : Jac F :=
+  match k with
+  | 0 => ⟨1, 1, 0⟩
+  | k+1 =>
+    let h := jsmul ((k+1)/2) p
+    let d := jdbl h
+    if (k+1) % 2 = 1 then jadd d p else d
+decreasing_by omega
+
+def smulFast (k : Nat) (p : Pt F) : Pt F := ofJac (jsmul k (toJac p))
+
 end Pt
 end
 
